@@ -13,7 +13,7 @@ MKEYS = ["log", "a.b"]
 OVERRIDES = ["ov/a", "ov/b", "ovc"]
 
 
-def gen_history(rng, budget, length, ids, allow_meta=True):
+def gen_history(rng, budget, length, ids, allow_meta=True, with_data_prob=0.0, meta_any=False):
     ops = []
     fns = BD.KEY_FNS
     memoized = set()
@@ -63,9 +63,9 @@ def gen_history(rng, budget, length, ids, allow_meta=True):
         elif r < 0.89:
             ops.append(["lmems", fname])
         elif r < 0.94 and allow_meta:
-            if (fname, arg) in memoized:
+            if (fname, arg) in memoized or meta_any:
                 ids[0] += 1
-                ops.append(["wmeta", fname, arg, rng.choice(MKEYS), ids[0], False])
+                ops.append(["wmeta", fname, arg, rng.choice(MKEYS), ids[0], rng.random() < with_data_prob])
             else:
                 ops.append(["rmeta", fname, arg, rng.choice(MKEYS)])
         elif r < 0.97 and allow_meta:
